@@ -73,6 +73,9 @@ func Explore(
 			if b.Window[1] != 0 && (i < b.Window[0] || i >= b.Window[1]) {
 				continue
 			}
+			if i < e.WindowFrom {
+				break
+			}
 			p := e.Points[i]
 			for alt := p.N - 1; alt >= 1; alt-- {
 				pre, env := it.pre, it.env
